@@ -807,6 +807,36 @@ func (m *monitor) strategyDecidedKnowable(job *execution.Job) bool {
 			refs[i].FinishTimestamp = &t
 		}
 	}
+	// Pods the controller can see but whose task reference it could not persist yet
+	// (the status write failed): the reconciler adopts them in memory in every sync.
+	var par *execution.ParallelismSpec
+	if cj.Spec.Template != nil {
+		par = cj.Spec.Template.Parallelism
+	}
+	indexes := parallel.GenerateIndexes(par)
+	if m.r.w.Ctrl != nil {
+		for _, o := range m.r.w.Ctrl.Informer(sim.ResPods).GetIndexer().List() {
+			cp := o.(*corev1.Pod)
+			if ref := metav1.GetControllerOf(cp); ref == nil || ref.UID != cj.UID || findTaskRef(cj, cp.Name) != nil {
+				continue
+			}
+			for i := range indexes {
+				h, _ := parallel.HashIndex(indexes[i])
+				if !strings.HasPrefix(cp.Name, cj.Name+"-"+h+"-") {
+					continue
+				}
+				nr := execution.TaskRef{Name: cp.Name, ParallelIndex: &indexes[i]}
+				t := metav1.Now()
+				switch cp.Status.Phase {
+				case corev1.PodSucceeded:
+					nr.FinishTimestamp, nr.Status.Result = &t, execution.TaskSucceeded
+				case corev1.PodFailed:
+					nr.FinishTimestamp, nr.Status.Result = &t, execution.TaskFailed
+				}
+				refs = append(refs, nr)
+			}
+		}
+	}
 	s, err := parallel.GetParallelTaskSummary(cj, refs)
 	return err == nil && s.Complete
 }
